@@ -19,6 +19,8 @@ try:
     for mid in ids:
         d = os.path.join(V, 'seeded', mid)
         meta = json.load(open(os.path.join(d, 'meta.json')))
+        if meta.get('neutralised_by') and not args:
+            print(mid, 'skipped: neutralised by', meta['neutralised_by']); continue
         checks = checks_override or meta.get('run_checks') or [meta['breaks_property']]
         r = subprocess.run(['git', '-C', REPO, 'apply', os.path.join(d, 'patch.diff')], capture_output=True)
         if r.returncode != 0:
